@@ -120,7 +120,32 @@ def check_calculate_index(prop, res, repo):
     _ip = repo.method("hexital.core.indicator", "Indicator", "calculate_index")
     from ..structure import arg_of as _arg_of
 
-    if len(calls) == 1 and _arg_of(calls[0], _ip, 0) is not None and ast.unparse(_arg_of(calls[0], _ip, 0)) == "index" and (len(calls[0].args) + len(calls[0].keywords)) == 1:
+    def _delegates_by_evaluation():
+        """Hexital.calculate_index(name, index) evaluated with recording indicators: each selected indicator's calculate_index
+        receives exactly the given index (True / False / None: undecided)"""
+        from .. import convsem as cs
+
+        verdicts = []
+        for asked, ix in ((None, -1), ("A", 5), ("B", 0), (None, -3)):
+            it = cs.Interp(repo, "hexital.core.hexital", "Hexital")
+            got = []
+            inds = {}
+            for n_ in ("A", "B"):
+                o = cs.ObjV(f"indicator {n_}", {"name": n_}, "Indicator")
+                o.attrs["calculate_index"] = (lambda a, k, n__=n_: got.append((n__, tuple(a), tuple(sorted(k.items())))))
+                inds[n_] = o
+            selfo = cs.ObjV("self", {"_indicators": inds, "_candles": {}}, "Hexital")
+            try:
+                it.call_function(it.method("calculate_index"), [], {"name": asked, "index": ix}, bound_first=selfo)
+            except (cs.Undecided, cs.Raised):
+                return None
+            want_names = ["A", "B"] if asked is None else [asked]
+            ok_ = sorted(g[0] for g in got) == want_names and all((g[1] == (ix,) and g[2] == ()) or (g[1] == () and len(g[2]) == 1 and g[2][0][1] == ix and g[2][0][0] in ("index", "start_index")) for g in got)
+            verdicts.append(ok_)
+        return all(verdicts)
+
+    _sem = _delegates_by_evaluation()
+    if _sem or (_sem is None and len(calls) == 1 and _arg_of(calls[0], _ip, 0) is not None and ast.unparse(_arg_of(calls[0], _ip, 0)) == "index" and (len(calls[0].args) + len(calls[0].keywords)) == 1):
         res.ok(rule, {"site": hci.where, "why": "delegates the index unchanged to Indicator.calculate_index, which normalises it"})
     else:
         res.fail(rule, finding(prop, rule, hci, hci.node, "Hexital.calculate_index must delegate its index to Indicator.calculate_index", construct="Hexital.calculate_index: delegate"))
